@@ -8,6 +8,262 @@ import cfgcommon as cc
 PROFILE = dict(max_depth=3, max_len=4, n_funcs=4)
 
 
+# ---------------------------------------------------------------------------------------------------------------------
+# multi-file stream: projects of 2-5 modules with DISJOINT function/class names, analysed in ONE pyscn invocation.
+# The report of an invocation is per file; whatever state the analysis keeps between the files of one run (parser, graph builder,
+# tables keyed by function name) must not show in the report of a later file.  Decided like the single-module cases (every marker
+# CPython executes in file X lies outside every range reported under X, whatever function the row names) plus the structural
+# requirement that a row reported under X names a def of X and stays inside that def's lines - known from the generator.
+# ---------------------------------------------------------------------------------------------------------------------
+NAME_STRIDE = 1000       # file j of a project uses the def/class numbers j*NAME_STRIDE+1 ...: no qualified name occurs in two files
+STEMS = ["alpha", "beta", "core", "delta", "eps", "gamma", "main", "util", "views", "zeta", "a0", "z9", "_priv", "Upper"]
+
+
+def retag(b, off, live):
+    """Copy of an (un)numbered block with every def/class number shifted by off; live=True: every terminator becomes a simple
+    statement (same printed height: the 'live twin' has an executable marker on each line where the original may have dead code)."""
+    def T(x):
+        return None if x is None else retag(x, off, live)
+    out = []
+    for s in b:
+        c = s[0]
+        if c in pygen.TERMS:
+            out.append(('simple', 0) if live else (c, 0))
+        elif c in ('simple', 'pass'):
+            out.append((c, 0))
+        elif c == 'comp':
+            out.append(('comp', 0, list(s[2])))
+        elif c == 'if':
+            out.append(('if', 0, T(s[2]), [(0, T(x)) for (_, x) in s[3]], T(s[4])))
+        elif c in ('while', 'for'):
+            out.append((c, 0, T(s[2]), T(s[3])))
+        elif c == 'try':
+            out.append(('try', 0, T(s[2]), [(0, T(x)) for (_, x) in s[3]], T(s[4]), T(s[5])))
+        elif c == 'with':
+            out.append(('with', 0, T(s[2])))
+        elif c == 'match':
+            out.append(('match', 0, [(0, T(x)) for (_, x) in s[2]]))
+        elif c in ('def', 'class'):
+            out.append((c, 0, s[2] + off, T(s[3])))
+        else:
+            raise AssertionError(c)
+    return out
+
+
+def has_dead_tail(b):
+    """Some block has a terminator that is not its last statement (code after it is dead whatever the oracle)."""
+    for i, s in enumerate(b):
+        if s[0] in pygen.TERMS and i < len(b) - 1:
+            return True
+        if any(has_dead_tail(sb) for _, sb in pygen.sub_blocks(s)):
+            return True
+    return False
+
+
+def gen_projects(rng, n_random, n_twin):
+    """[{'kind', 'files': [{'rel', 'ast', 'lines'}]}]; the order of 'files' is the generation order (name bases), the relative paths
+    are drawn independently, so every sorted position of the file with dead code relative to the others occurs."""
+    def raw_module(dead_rich=False):
+        for _ in range(60):
+            g = pygen.Gen(rng, max_depth=3, max_len=4)
+            m = g.module(rng.randint(1, 4), with_class=rng.random() < 0.6)
+            if not dead_rich or has_dead_tail(m):
+                return m
+        return m
+
+    def paths(k, rng_):
+        stems = rng_.sample(STEMS, k)
+        return [("pkg/" if rng_.random() < 0.3 else "") + st + ".py" for st in stems]
+
+    projects = []
+    for i in range(n_random):
+        k = 2 + i % 4                                       # 2, 3, 4, 5 files
+        raws = [retag(raw_module(dead_rich=(j == i % k)), j * NAME_STRIDE, False) for j in range(k)]
+        projects.append({"kind": "random", "raw": raws, "rel": paths(k, rng)})
+    for i in range(n_twin):
+        a = raw_module(dead_rich=True)
+        extra = [retag(raw_module(), (2 + j) * NAME_STRIDE, False) for j in range(i % 3)]           # 0, 1, 2 further files
+        raws = [retag(a, 0, False), retag(a, NAME_STRIDE, True)] + extra
+        rel = sorted(paths(len(raws), rng))
+        # the same project with the file order of every rotation / the reverse: the dead original sorts before AND after its live twin
+        for variant, order in (("fwd", rel), ("rev", rel[::-1])):
+            projects.append({"kind": "twin-" + variant, "raw": raws, "rel": list(order)})
+    for p in projects:
+        p["files"] = []
+        for raw, rel in zip(p.pop("raw"), p.pop("rel")):
+            ast, lines = pygen.layout(raw)
+            p["files"].append({"rel": rel, "ast": ast, "lines": lines})
+    return projects
+
+
+def _rows_of_report(data, cwd):
+    """{relative path: [(function name, [(start, end, severity, reason)])]} of one analyze report."""
+    out = {}
+    for f in ((data or {}).get("dead_code") or {}).get("files") or []:
+        fp = f["file_path"]
+        rel = os.path.normpath(os.path.relpath(fp, cwd) if os.path.isabs(fp) else fp)
+        for fn in f.get("functions") or []:
+            out.setdefault(rel, []).append((fn["name"], [(x["location"]["start_line"], x["location"]["end_line"], x["severity"], x["reason"])
+                                                        for x in fn.get("findings") or []]))
+    return out
+
+
+def run_project(p):
+    """All invocations of one project (sequential: the report directory is per working directory). Returns [(argv, kind, result)]."""
+    import re as _re
+    cwd = p["dir"]
+    rels = sorted(f["rel"] for f in p["files"])
+    res = []
+    for targets, label in ((["."], "dir"), (rels, "files-sorted"), (rels[::-1], "files-reversed")):
+        sel = "complexity,deadcode" if label == "dir" else "deadcode"
+        extra = ["--select", sel, "--min-severity", "info"]
+        argv = ["analyze", "--json", "--no-open"] + extra + targets
+        if label == "dir":
+            rc, data, err = lib.analyze_json(cwd, extra, timeout=120)
+        else:
+            import shutil as _sh, json as _json
+            rep = os.path.join(cwd, ".pyscn", "reports")
+            _sh.rmtree(rep, ignore_errors=True)
+            rc, out, err = lib.pyscn(argv, cwd, timeout=120)
+            data = None
+            if os.path.isdir(rep):
+                fs = sorted(x for x in os.listdir(rep) if x.endswith(".json"))
+                if fs:
+                    try:
+                        data = _json.load(open(os.path.join(rep, fs[-1])))
+                    except Exception:
+                        data = None
+        res.append((argv, "analyze", None if data is None else _rows_of_report(data, cwd), "rc=%s %s" % (rc, err[-300:])))
+    for targets, label in ((["."], "dir"), (rels[::-1], "files-reversed")):
+        argv = ["check", "--select", "deadcode"] + targets
+        rc, out, err = lib.pyscn(argv, cwd, timeout=120)
+        rows = {}
+        for ln in (out + "\n" + err).splitlines():
+            mm = _re.match(r"^(.*\.py):(\d+):(\d+): (\S+) \((\w+)\)\s*$", ln)
+            if mm:
+                fp = mm.group(1)
+                rel = os.path.normpath(os.path.relpath(fp, cwd) if os.path.isabs(fp) else fp)
+                k = int(mm.group(2))
+                rows.setdefault(rel, []).append((None, [(k, k, mm.group(5), mm.group(4))]))
+        res.append((argv, "check", rows if rc in (0, 1) else None, "rc=%s %s" % (rc, err[-300:])))
+    return res
+
+
+def multi_file_stage(ck, rng, oracles, thorough, stats, nviol):
+    from concurrent.futures import ThreadPoolExecutor
+    import time as _time
+    t0 = _time.time()
+    projects = gen_projects(rng, 48 if thorough else 8, 24 if thorough else 4)
+    root = lib.fresh_dir("c01_multi")
+    mods = []
+    for i, p in enumerate(projects):
+        p["dir"] = os.path.join(root, "p%03d" % i)
+        for f in p["files"]:
+            f["path"] = os.path.join(p["dir"], f["rel"])
+            os.makedirs(os.path.dirname(f["path"]), exist_ok=True)
+            with open(f["path"], "w") as fh:
+                fh.write("\n".join(f["lines"]) + "\n")
+            mods.append(f)
+    cc.cpython_traces(mods, oracles)
+    st = dict(projects=len(projects), files=len(mods), invocations=0, rows=0, dead_ranges=0, check_lines=0, executed_lines=0,
+              lines_executed_here_and_reported_dead_in_a_sibling=0, files_per_project={}, kinds={})
+    stats["multi_file"] = st
+    for p in projects:
+        st["files_per_project"][len(p["files"])] = st["files_per_project"].get(len(p["files"]), 0) + 1
+        st["kinds"][p["kind"]] = st["kinds"].get(p["kind"], 0) + 1
+        for f in p["files"]:
+            # generator's own knowledge of the file: qualified name -> (def line, last line); lines really executed by CPython
+            f["defs"] = {}
+            for name, lst in cc.def_table(f).items():
+                s, path = lst[0]
+                f["defs"][name] = (s[1], pygen.end_line(s), len(path) == 1)
+            f["own"] = {}            # name -> {executed line: oracle index} of the standalone runs of that def
+            f["exec_top"] = {}       # executed line -> (def name, oracle index): runs of module-level functions and methods only
+            for name, (k0, _e, top) in f["defs"].items():
+                for oi, (trace, _o) in enumerate(f["py_traces"].get(k0) or []):
+                    for k in trace:
+                        f["own"].setdefault(name, {}).setdefault(k, oi)
+                        if top:
+                            f["exec_top"].setdefault(k, (name, oi))
+            st["executed_lines"] += len(f["exec_top"])
+    with ThreadPoolExecutor(8) as ex:
+        results = list(ex.map(run_project, projects))
+    live_viol, struct_viol = [], []
+    for p, res in zip(projects, results):
+        byrel = {os.path.normpath(f["rel"]): f for f in p["files"]}
+        src = {f["rel"]: f["lines"] for f in p["files"]}
+        dead_lines = {}
+        for argv, kind, rows, diag in res:
+            st["invocations"] += 1
+            if rows is None:
+                ck.broken_ties.append("multi-file: `pyscn %s` in %s produced no report (%s)" % (" ".join(argv), p["dir"], diag))
+                continue
+            base = {"found_by": "multi-file stream (%s project, one invocation over %d files)" % (p["kind"], len(p["files"])),
+                    "cwd": p["dir"], "argv": ["pyscn"] + argv, "files": src}
+            for rel, frows in rows.items():
+                f = byrel.get(rel)
+                if f is None:
+                    struct_viol.append(("`pyscn %s` reports dead code under %s, which is not a file of the analysed project %s"
+                                        % (" ".join(argv), rel, sorted(byrel)), dict(base, kind="finding-under-unknown-file", reported_file=rel, rows=frows)))
+                    continue
+                for name, ranges in frows:
+                    st["rows"] += 1
+                    if kind == "analyze":
+                        st["dead_ranges"] += len(ranges)
+                        dead_lines.setdefault(rel, set()).update(k for (a, e, *_r) in ranges for k in range(a, e + 1))
+                    else:
+                        st["check_lines"] += len(ranges)
+                    # (a) the property: a line CPython executes in THIS file is in no range reported under this file
+                    for (a, e, sev, reason) in ranges:
+                        hit = [(k,) + f["exec_top"][k] for k in sorted(f["exec_top"]) if a <= k <= e]
+                        if name in f["own"]:         # a nested def is run standalone: its lines count against its own row only
+                            hit += [(k, name, oi) for k, oi in sorted(f["own"][name].items()) if a <= k <= e]
+                        if hit:
+                            k, fn_, oi = hit[0]
+                            live_viol.append(("line %d of %s (%s) executes under CPython (function %s, oracle %s) but `pyscn %s` reports the range %s of that "
+                                              "file as dead code (%s, %s, function row %r)"
+                                              % (k, rel, f["lines"][k - 1].strip()[:50], fn_, oracles[oi], " ".join(argv), (a, e), reason, sev, name),
+                                              dict(base, kind="live-flagged-dead", file=rel, executed_line=k, function=fn_, oracle=oracles[oi],
+                                                   dead_range=[a, e, sev, reason], reported_function=name, source=f["lines"])))
+                    # (b) structure: the row names a def of this file and its ranges stay inside that def
+                    if kind == "analyze":
+                        d = f["defs"].get(name)
+                        owners = [n for q in p["files"] if q is not f for n in q["defs"] if n == name]
+                        if d is None:
+                            struct_viol.append(("`pyscn %s` reports dead code under %s in a function %r that this file does not define (its defs: %s)%s; ranges %s"
+                                                % (" ".join(argv), rel, name, sorted(f["defs"]),
+                                                   "; another file of the same run defines it" if owners else "", ranges),
+                                                dict(base, kind="finding-for-foreign-function", file=rel, reported_function=name, ranges=ranges, source=f["lines"])))
+                        else:
+                            # an elif test has no source span in pyscn: its finding is printed at line 0 (no line of any file; counted)
+                            st["ranges_at_line_0"] = st.get("ranges_at_line_0", 0) + sum(1 for (a, e, *_r) in ranges if a == 0 and e == 0)
+                            out_ = [(a, e) for (a, e, *_r) in ranges if not (d[0] < a <= e <= d[1]) and (a, e) != (0, 0)]
+                            if out_:
+                                struct_viol.append(("`pyscn %s` reports under %s, function %s (lines %d-%d), the dead ranges %s outside the function"
+                                                    % (" ".join(argv), rel, name, d[0], d[1], out_),
+                                                    dict(base, kind="finding-outside-its-function", file=rel, reported_function=name, ranges=ranges, source=f["lines"])))
+                    else:
+                        for (a, e, sev, reason) in ranges:
+                            if not any(d[0] <= a <= d[1] for d in f["defs"].values()):
+                                struct_viol.append(("`pyscn %s` prints %s:%d (%s) but no function of that file contains the line"
+                                                    % (" ".join(argv), rel, a, reason), dict(base, kind="check-line-outside-functions", file=rel, line=a, source=f["lines"])))
+        # how often the input class is really hit: a line executed in one file that a sibling file of the same run has inside a dead range
+        for f in p["files"]:
+            for q in p["files"]:
+                if q is not f:
+                    st["lines_executed_here_and_reported_dead_in_a_sibling"] += len(set(f["exec_top"]) & dead_lines.get(os.path.normpath(q["rel"]), set()))
+    if not st["dead_ranges"] or not st["lines_executed_here_and_reported_dead_in_a_sibling"]:
+        ck.broken_ties.append("multi-file stream is vacuous: %s" % st)
+    for what, replay in live_viol + struct_viol:
+        if nviol >= 3:
+            break
+        nviol += 1
+        ck.violation(what, replay, independent=True)
+    st["disagreements"] = len(live_viol) + len(struct_viol)
+    st["seconds"] = round(_time.time() - t0, 1)
+    return nviol
+
+
 def main(tier):
     ck = lib.Check("C01", tier)
     ck.prepare("C01.v")
@@ -91,6 +347,12 @@ def main(tier):
                                   "dead_ranges": hit, "source_excerpt": src[max(0, k - 8):k + 3], "found_by": "real-Python corpus under sys.settrace"})
     except Exception as e:
         ck.broken_ties.append("corpus stage failed: " + str(e)[-600:])
+    # ---- multi-file stream: one invocation over 2-5 modules with disjoint names (directory target, explicit file lists in both
+    # orders, `pyscn check`): nothing of one file shows in the report of another ----
+    try:
+        nviol = multi_file_stage(ck, rng, oracles, thorough, stats, nviol)
+    except Exception as e:
+        ck.broken_ties.append("multi-file stage failed: " + str(e)[-600:])
     sem_mism = tie_mism = 0
     suspects = []   # statements pyscn calls dead and the model calls live: candidates for a CPython witness
     for m in mods:
@@ -213,9 +475,15 @@ def main(tier):
         "evaluations": stats["runs"],
         "distinct_nontrivial": stats["functions"],
         "rule": "generated functions (all constructs of the property's quantifier, nesting <= 4) x oracles; one evaluation = one CPython run "
-                "of one function under one oracle, checked against pyscn's dead ranges; distinct = distinct generated functions",
+                "of one function under one oracle, checked against pyscn's dead ranges; distinct = distinct generated functions; "
+                "plus the multi-file stream (input_distribution.multi_file): projects of 2-5 modules with pairwise disjoint def/class names "
+                "(random modules and dead-original/live-twin pairs with identical line layout, the original sorted before and after its twin, "
+                "files in the root and in a sub-package) analysed in ONE invocation each of `analyze --select complexity,deadcode .`, "
+                "`analyze --select deadcode <files sorted>`, `<files reversed>`, `check --select deadcode .` and `check <files reversed>`; per "
+                "reported file X: no line CPython executes in X lies in any range reported under X (whatever function the row names), every row "
+                "names a def of X and stays inside its lines, no row is reported under a path outside the project",
         "input_distribution": stats,
-        "disagreements_checked": nviol + tie_mism + sem_mism,
+        "disagreements_checked": nviol + tie_mism + sem_mism + stats.get("multi_file", {}).get("disagreements", 0),
         "oracles": len(oracles), "modules": len(mods),
     })
     ck.trusted += ["Coq 8.16.1 kernel; vm_compute for model evaluation",
